@@ -1,3 +1,4 @@
+import Tickit.Model.Width
 /-
   The VT reference interpreter (DESIGN.md Appendix C): our reading of DEC STD 070 / xterm ctlseqs for the
   sequences the xterm driver of libtickit emits.  It is the *specification* of "VT-conformant" in C09.
@@ -212,14 +213,10 @@ def wrap (vt : VTState) : VTState :=
 
 end VTState
 
-/-- Column width of a code point as the terminal sees it (assumed to agree with the library's tables; only
-    width-1 text is covered by the theorems). -/
-def width (cp : Nat) : Nat :=
-  if (0x300 ≤ cp ∧ cp ≤ 0x36f) ∨ cp = 0x200b ∨ (0xfe00 ≤ cp ∧ cp ≤ 0xfe0f) then 0
-  else if (0x1100 ≤ cp ∧ cp ≤ 0x115f) ∨ (0x2e80 ≤ cp ∧ cp ≤ 0xa4cf) ∨ (0xac00 ≤ cp ∧ cp ≤ 0xd7a3) ∨
-          (0xf900 ≤ cp ∧ cp ≤ 0xfaff) ∨ (0xfe30 ≤ cp ∧ cp ≤ 0xfe6f) ∨ (0xff00 ≤ cp ∧ cp ≤ 0xff60) ∨
-          (0xffe0 ≤ cp ∧ cp ≤ 0xffe6) ∨ (0x1f300 ≤ cp ∧ cp ≤ 0x1f64f) ∨ (0x20000 ≤ cp ∧ cp ≤ 0x3fffd) then 2
-  else 1
+/-- Column width of a code point as the terminal sees it: the library's own `tickit_utf8_wcwidth`
+    (Model/Width.lean, tables regenerated from the source) — the property assumes that the terminal and the library
+    agree on widths.  Controls (`-1`) take no column. -/
+def width (cp : Nat) : Nat := (Width.wcwidth cp).toNat
 
 namespace VTState
 
@@ -251,22 +248,7 @@ end VTState
 
 /-! ### SGR (only background and reverse video are tracked) -/
 
-/-- Number of `;`-separated parameters the extended colour introduced by 38/48 consumes after itself. -/
-def sgrExtSkip : List (List (Option Nat)) → Nat
-  | [some 5] :: _ :: _ => 2
-  | [some 5] :: _ => 1
-  | [some 2] :: _ :: _ :: _ :: _ => 4
-  | [some 2] :: rest => rest.length + 1
-  | _ :: _ => 1
-  | [] => 0
-
 def rgbColour (r g b : Nat) : Int := 256 + ((r % 256) * 65536 + (g % 256) * 256 + b % 256 : Nat)
-
-/-- Background selected by `48 ; 5 ; n`, `48 ; 2 ; r ; g ; b` (parameters after the 48), if well formed. -/
-def sgrExtBgSemi : List (List (Option Nat)) → Option Int
-  | [some 5] :: [n] :: _ => some ((n.getD 0 : Nat) : Int)
-  | [some 2] :: [r] :: [g] :: [b] :: _ => some (rgbColour (r.getD 0) (g.getD 0) (b.getD 0))
-  | _ => none
 
 /-- Background selected by the colon forms `48:5:n`, `48:2:r:g:b`, `48:2:cs:r:g:b` (parts after the 48). -/
 def sgrExtBgColon : List (Option Nat) → Option Int
@@ -275,34 +257,56 @@ def sgrExtBgColon : List (Option Nat) → Option Int
   | [some 2, _, r, g, b] => some (rgbColour (r.getD 0) (g.getD 0) (b.getD 0))
   | _ => none
 
-def sgrLoop (fuel : Nat) (ps : List (List (Option Nat))) (bg : Int) (rv : Bool) : Int × Bool :=
-  match fuel with
-  | 0 => (bg, rv)
-  | fuel + 1 =>
-    match ps with
-    | [] => (bg, rv)
-    | p :: rest =>
-      match p with
-      | [] => sgrLoop fuel rest (-1) false
-      | main :: subs =>
-        let n := main.getD 0
-        if n = 0 then sgrLoop fuel rest (-1) false
-        else if n = 7 then sgrLoop fuel rest bg true
-        else if n = 27 then sgrLoop fuel rest bg false
-        else if 40 ≤ n ∧ n ≤ 47 then sgrLoop fuel rest ((n - 40 : Nat) : Int) rv
-        else if 100 ≤ n ∧ n ≤ 107 then sgrLoop fuel rest ((n - 100 + 8 : Nat) : Int) rv
-        else if n = 49 then sgrLoop fuel rest (-1) rv
-        else if n = 48 then
-          if subs ≠ [] then sgrLoop fuel rest ((sgrExtBgColon subs).getD bg) rv
-          else sgrLoop fuel (rest.drop (sgrExtSkip rest)) ((sgrExtBgSemi rest).getD bg) rv
-        else if n = 38 ∨ n = 58 then
-          if subs ≠ [] then sgrLoop fuel rest bg rv
-          else sgrLoop fuel (rest.drop (sgrExtSkip rest)) bg rv
-        else sgrLoop fuel rest bg rv
+/-- What a `38` / `48` / `58` spelled with semicolons is still waiting for (`isBg` = it was a 48). -/
+inductive SgrPend
+  | none
+  | kind (isBg : Bool)
+  | idx (isBg : Bool)
+  | r (isBg : Bool)
+  | g (isBg : Bool) (r : Nat)
+  | b (isBg : Bool) (r g : Nat)
+deriving DecidableEq, Repr, Inhabited
+
+/-- The part of the rendering state the screen model tracks, while an SGR sequence is interpreted. -/
+structure SgrAcc where
+  bg : Int
+  rv : Bool
+  pend : SgrPend
+deriving DecidableEq, Repr, Inhabited
+
+/-- One `;`-separated SGR parameter (`p` = its `:`-separated parts). -/
+def sgrStep (s : SgrAcc) (p : List (Option Nat)) : SgrAcc :=
+  match p with
+  | [] => ⟨-1, false, .none⟩
+  | main :: subs =>
+    let n := main.getD 0
+    if subs ≠ [] then
+      -- colon form: self-contained
+      if n = 48 then ⟨(sgrExtBgColon subs).getD s.bg, s.rv, .none⟩ else ⟨s.bg, s.rv, .none⟩
+    else
+      match s.pend with
+      | .none =>
+        if n = 0 then ⟨-1, false, .none⟩
+        else if n = 7 then ⟨s.bg, true, .none⟩
+        else if n = 27 then ⟨s.bg, false, .none⟩
+        else if 40 ≤ n ∧ n ≤ 47 then ⟨((n - 40 : Nat) : Int), s.rv, .none⟩
+        else if 100 ≤ n ∧ n ≤ 107 then ⟨((n - 100 + 8 : Nat) : Int), s.rv, .none⟩
+        else if n = 49 then ⟨-1, s.rv, .none⟩
+        else if n = 48 then ⟨s.bg, s.rv, .kind true⟩
+        else if n = 38 ∨ n = 58 then ⟨s.bg, s.rv, .kind false⟩
+        else s
+      | .kind isBg =>
+        if n = 5 then ⟨s.bg, s.rv, .idx isBg⟩
+        else if n = 2 then ⟨s.bg, s.rv, .r isBg⟩
+        else ⟨s.bg, s.rv, .none⟩
+      | .idx isBg => ⟨if isBg then ((n : Nat) : Int) else s.bg, s.rv, .none⟩
+      | .r isBg => ⟨s.bg, s.rv, .g isBg n⟩
+      | .g isBg r => ⟨s.bg, s.rv, .b isBg r n⟩
+      | .b isBg r g => ⟨if isBg then rgbColour r g n else s.bg, s.rv, .none⟩
 
 def VTState.sgr (vt : VTState) (ps : List (List (Option Nat))) : VTState :=
-  let r := sgrLoop (ps.length + 1) ps vt.bg vt.rv
-  { vt with bg := r.1, rv := r.2 }
+  let r := ps.foldl sgrStep ⟨vt.bg, vt.rv, .none⟩
+  { vt with bg := r.bg, rv := r.rv }
 
 /-! ### Dispatch -/
 
@@ -416,15 +420,16 @@ def VTState.csiByte (vt : VTState) (a : CsiAcc) (b : UInt8) : VTState :=
 
 /-- One byte in the ground state. -/
 def VTState.groundByte (vt : VTState) (b : UInt8) : VTState :=
-  if b = 0x1b then { vt with ps := .esc }
-  else if b = 0x0d then { vt with col := vt.left, pendingWrap := false }
-  else if b = 0x0a ∨ b = 0x0b ∨ b = 0x0c then vt.lineFeed
-  else if b = 0x08 then vt.moveTo vt.row (vt.col - 1)
-  else if b < 0x20 ∨ b = 0x7f then vt
-  else if b < 0x80 then vt.putGlyph b.toNat
-  else if 0xc2 ≤ b ∧ b ≤ 0xdf then { vt with ps := .utf8 1 (b.toNat - 0xc0) }
-  else if 0xe0 ≤ b ∧ b ≤ 0xef then { vt with ps := .utf8 2 (b.toNat - 0xe0) }
-  else if 0xf0 ≤ b ∧ b ≤ 0xf4 then { vt with ps := .utf8 3 (b.toNat - 0xf0) }
+  let n := b.toNat
+  if n = 0x1b then { vt with ps := .esc }
+  else if n = 0x0d then { vt with col := vt.left, pendingWrap := false }
+  else if n = 0x0a ∨ n = 0x0b ∨ n = 0x0c then vt.lineFeed
+  else if n = 0x08 then vt.moveTo vt.row (vt.col - 1)
+  else if n < 0x20 ∨ n = 0x7f then vt
+  else if n < 0x80 then vt.putGlyph n
+  else if 0xc2 ≤ n ∧ n ≤ 0xdf then { vt with ps := .utf8 1 (n - 0xc0) }
+  else if 0xe0 ≤ n ∧ n ≤ 0xef then { vt with ps := .utf8 2 (n - 0xe0) }
+  else if 0xf0 ≤ n ∧ n ≤ 0xf4 then { vt with ps := .utf8 3 (n - 0xf0) }
   else vt.putGlyph 0xfffd
 
 /-- The tokenizer / executor: one byte. -/
@@ -456,7 +461,7 @@ def step (vt : VTState) (b : UInt8) : VTState :=
     else if b = 0x5b then { vt with ps := .csi CsiAcc.empty }
     else { vt with ps := .ground }
   | .utf8 need acc =>
-    if 0x80 ≤ b ∧ b ≤ 0xbf then
+    if 0x80 ≤ b.toNat ∧ b.toNat ≤ 0xbf then
       let acc' := acc * 64 + (b.toNat - 0x80)
       if need ≤ 1 then ({ vt with ps := .ground } : VTState).putGlyph acc'
       else { vt with ps := .utf8 (need - 1) acc' }
